@@ -81,6 +81,8 @@ type RpcCase struct {
 	Exact    bool     `json:"exact"`    // sizes are exact wire sizes in the case's codec
 	TruncK   int      `json:"trunck"`   // with Trunc > 0: number of complete client messages kept
 	Corrupt  bool     `json:"corrupt"`  // gRPC: the first frame claims to be compressed but holds garbage
+	Noise    bool     `json:"noise"`    // the client messages carry incompressible bytes (field by) instead of letters
+	WsFrag   int      `json:"wsfrag"`   // ws: every message is sent as continuation frames of at most this many bytes (0 = one frame)
 	ReqCT    string   `json:"reqct"`    // http: Content-Type of a request WITHOUT a body (the one message is the empty message)
 	ExactRep bool     `json:"exactrep"` // send sizes are exact wire sizes of the replies in the case's codec
 	WsClose  bool     `json:"wsclose"`  // ws: the client sends a close frame (1000) after its messages; else it waits for the server's
@@ -240,6 +242,45 @@ func recordsMsg(caseID, idx, n int) *dynamicpb.Message {
 }
 
 // exactReq builds client message idx whose wire size in codec is exactly want (or the smallest possible above it).
+// noiseMsg is client message idx with size pseudo-random (incompressible) bytes.
+func noiseMsg(caseID, idx, size int) *dynamicpb.Message {
+	m := reqMsg(caseID, idx, 0)
+	if size > 0 {
+		b := make([]byte, size)
+		x := uint64(caseID)*0x9E3779B97F4A7C15 + uint64(idx)*0xBF58476D1CE4E5B9 + 1
+		for i := range b {
+			x ^= x << 13
+			x ^= x >> 7
+			x ^= x << 17
+			b[i] = byte(x >> 24)
+		}
+		m.Set(reqDesc().Fields().ByName("by"), protoreflect.ValueOfBytes(b))
+	}
+	return m
+}
+
+// exactNoise: like exactReq with incompressible content.
+func exactNoise(caseID, idx, want int, codec string) *dynamicpb.Message {
+	pad := want - len(marshalMsg(codec, noiseMsg(caseID, idx, 0)))
+	if pad < 0 {
+		pad = 0
+	}
+	for i := 0; i < 8; i++ {
+		n := len(marshalMsg(codec, noiseMsg(caseID, idx, pad)))
+		if n == want || (n > want && pad == 0) {
+			break
+		}
+		pad += want - n
+		if pad < 0 {
+			pad = 0
+		}
+	}
+	for len(marshalMsg(codec, noiseMsg(caseID, idx, pad))) < want {
+		pad++
+	}
+	return noiseMsg(caseID, idx, pad)
+}
+
 func exactReq(caseID, idx, want int, codec string) *dynamicpb.Message {
 	pad := want - len(marshalMsg(codec, reqMsg(caseID, idx, 0)))
 	if pad < 0 {
@@ -644,7 +685,11 @@ func newRpcEnv(c RpcCase) (*rpcEnv, error) {
 			e.sent = append(e.sent, recordsMsg(c.ID, 1, 8+c.Boundary-1))
 			continue
 		}
-		if c.Exact {
+		if c.Exact && c.Noise {
+			e.sent = append(e.sent, exactNoise(c.ID, i+1, sz, c.Codec))
+		} else if c.Noise {
+			e.sent = append(e.sent, noiseMsg(c.ID, i+1, sz))
+		} else if c.Exact {
 			e.sent = append(e.sent, exactReq(c.ID, i+1, sz, c.Codec))
 		} else {
 			e.sent = append(e.sent, reqMsg(c.ID, i+1, sz))
